@@ -101,6 +101,10 @@ private:
 	size_t maxSamples_ = 4;
 
 	static char*& curPtr() { static char* p = nullptr; return p; }
+public:
+	// per-case CPU budget, also applied to child processes (the `vata` binary) a case starts
+	static int& caseTimeoutSec() { static int v = 20; return v; }
+private:
 
 	static void onTimer(int)
 	{
@@ -130,7 +134,7 @@ public:
 			else if (a == "--tag") tag = val();
 			else if (a == "--tier") tier = val();
 			else if (a == "--variant") variant = val();
-			else if (a == "--timeout") timeoutSec = atoi(val().c_str());
+			else if (a == "--timeout") { timeoutSec = atoi(val().c_str()); caseTimeoutSec() = timeoutSec; }
 			else if (a == "--input") inputFile = val();
 			else if (a == "-P")
 			{
